@@ -91,6 +91,7 @@ type wireOp struct {
 	// batchBind: the entries of the batch are added with Batch.Bind (values come from a
 	// binding callback); batchBindNamed: the callback returns named values, which a BATCH
 	// cannot carry (protocol 3+): the request must be refused, nothing may be sent
+	tooManyValues  bool
 	batchBind      bool
 	batchBindNamed bool
 	// rebind: the same *Query is executed first with binds0, then given the real values with
@@ -580,6 +581,20 @@ func wireGenOp(k *kernel.Kernel, token string, proto int) *wireOp {
 	case "exec":
 		n := tp.Next(5)
 		op.binds, op.named = wireGenBinds(k, proto, n, true)
+		if proto >= 2 && tp.Chance(1, 1200) {
+			// the most values a frame can count (a [short]), and one more than that: the first
+			// must arrive intact, the second cannot be expressed
+			n = []int{65535, 65536}[tp.Next(2)]
+			op.named = false
+			op.binds = make([]wireBind, n)
+			for i := range op.binds {
+				op.binds[i] = wireBind{t: wType{ID: cqlspec.TInt}, val: 7, bytes: cqlspec.EncInt(7)}
+			}
+			if n > 65535 {
+				op.inexpressible, op.tooManyValues = true, true
+			}
+			k.Fault(fmt.Sprintf("req.%d-bound-values", n))
+		}
 		ph := make([]string, n)
 		for i := range ph {
 			ph[i] = fmt.Sprintf("c%d = ?", i)
@@ -1033,6 +1048,9 @@ func wireRunOp(k *kernel.Kernel, sess *gocql.Session, op *wireOp, proto int, tra
 		}()
 		if !refused && err == nil {
 			what := "a custom payload"
+			if op.tooManyValues {
+				what = "65536 bound values, more than a frame can count,"
+			}
 			if op.batchBindNamed {
 				what = "named values in a batch (from a binding callback)"
 			}
